@@ -56,7 +56,9 @@ CHECKS["C16"] = dict(
     technique="Rocq theorems (non-interference of other routes; unchanged delivery) + dispatch/history correspondence",
     text="C16_route_scope: configurations agreeing on the action's route process a CALL identically; C16_unchanged: with "
          "validation skipped every payload is delivered and every result written unchanged. Tied by skipping and "
-         "validating routes side by side, invalid payloads on both, and (history view) calls of actions whose route skips.",
+         "validating routes side by side, invalid payloads on both, and (history view) calls of actions whose route skips; "
+         "twin classes, handler functions registered again, route maps rebuilt on the instance, requests issued while a "
+         "skipping route's CALL is handled, two endpoints handling the same id at once.",
     note=DISPATCH_NOTE, design="4/C16")
 CHECKS["C17"] = dict(
     technique="Rocq theorems over the regenerated Action lists + dispatch correspondence (all action names of both versions)",
@@ -79,7 +81,9 @@ CHECKS["C03"] = dict(
     text="C03_gate_protocol / C03_mutex: in every reachable state the log obeys the gate protocol, so between two CALL "
          "writes lies the release of the first request (reply, timeout, cancellation; failed writes never count); the gate is "
          "held only by the one caller waiting for a reply; inbound CALL processing does not read the gate. Tied by histories "
-         "with write failures, cancellations and an epilogue request that must be written and answered.",
+         "with write failures, cancellations and an epilogue request that must be written and answered; call() tasks created "
+         "before start(), a caller cancelled while its write is pending, a queued caller behind special reply ids; oracle "
+         "'released-without-its-reply'.",
     note=HISTORY_NOTE, design="4/C03")
 
 CHECKS["C04"] = dict(
@@ -151,7 +155,9 @@ CHECKS["C13"] = dict(
          "verdict is that of the request validated alone; C13_threads: the same under every interleaving of the "
          "lookup/load/store steps of any number of threads; both rest on the table fact that the cache key determines the "
          "float mode (re-checked each run). Tied by comparing every verdict with the cold-cache verdict in shuffled "
-         "histories, on 8 real threads, inline vs executor, and with the model's pure verdict.",
+         "histories, on 8 real threads, inline vs executor (also 300 validations and a burst of heavy ones in flight), the same "
+         "message object validated again, fresh interpreters (cold orders, the other version's same-named definitions first, "
+         "the version string 2.0 first), and with the model's pure verdict.",
     note="Trusted: Coq kernel + VM, translator, the hand model of get_validator's cache. Partial: races inside jsonschema "
          "objects and per-thread interpreter state (decimal context) are only observed.", design="4/C13")
 
@@ -175,7 +181,8 @@ CHECKS["C06"] = dict(
          "bijection on the vocabulary) and C11 (classes = schemas) carrying the key mapping; the composition A.call -> wire -> "
          "B.route_message -> wire -> A is an executable Gallina function (Model/Net.v loopback) compared, for every action and "
          "several schema-valid request/response instances, with two real endpoints: both frames, the handler's keywords, the "
-         "returned object, nested values as data-type objects or dicts. PARTIAL: the key-mapping round trip of whole payload "
+         "returned object, nested values as data-type objects, dicts, data types by shape (1.6) or enumeration members; an "
+         "older endpoint object of the same class on another connection; fresh-interpreter exchanges; slow handlers. PARTIAL: the key-mapping round trip of whole payload "
          "trees is proved per name (C10), not yet as a theorem about rekey over trees.",
     note=NET_NOTE, design="4/C06")
 CHECKS["C09"] = dict(
